@@ -212,6 +212,8 @@ def _analyse(ctx):
     for o in outs:
         if o.kind in ("unreachable", "infeasible"):
             continue
+        if not Zone(_cons_all(o)).feasible():
+            continue  # the path's own comparisons contradict each other (e.g. len <= h although h < len): not a real row
         info = classify_iteration(ctx, o, L)
         pushes = push_events(o)
         row = {"o": o, "info": info, "pushes": pushes, "kind": o.kind, "value": o.value, "L": L, "fn": name}
